@@ -271,6 +271,17 @@ Theorem C19_check_crc_from_source : forall p : list N, Forall (fun b => (b < 256
 Proof. exact go_CheckRtuCrc_is_model. Qed.
 Print Assumptions C19_check_crc_from_source.
 
+(* ... and without the model in the statement: a packet passes the printed CheckRtuCrc exactly when its last two bytes are,
+   big-endian, what the printed RtuCrc returns for the bytes before them *)
+Theorem C19_printed_check_iff_printed_crc : forall (body : list N) (c1 c0 : N),
+  (2 <= List.length body)%nat -> Forall (fun b => (b < 256)%N) body -> (c1 < 256)%N -> (c0 < 256)%N ->
+  (Z.of_nat (List.length body) < 2 ^ 60)%Z ->
+  exists crc e, run go_modbus_RtuCrc [map Z.of_N body] [] = Some crc /\
+    srun_inplace go_modbus_CheckRtuCrc [map Z.of_N (body ++ [c1; c0])] = Some (0%Z, e, map Z.of_N (body ++ [c1; c0])) /\
+    (e = Coq.Strings.String.EmptyString <-> crc = (Z.of_N c1 * 256 + Z.of_N c0)%Z).
+Proof. exact printed_check_iff_printed_crc. Qed.
+Print Assumptions C19_printed_check_iff_printed_crc.
+
 (* ---------- a register map that grows while the server is serving (Regs.AddReg between requests) ----------
    adding a register changes nothing that the map already held, for registers and for coils; a new register reads 0
    (Modbus/GrowProofs.v).  The sessions of the check add registers between calls (call 7) and the theorems above
